@@ -306,6 +306,9 @@ func (cs *Case) Res(kind string, value string) {
 func (c *Ctx) Cover(key string)         { c.cover[key]++ }
 func (c *Ctx) CoverN(key string, n int) { c.cover[key] += n }
 
+// CoverCount returns the current value of a coverage counter (of this worker).
+func (c *Ctx) CoverCount(key string) int { return c.cover[key] }
+
 // Distinct records a distinct non-trivial case key.
 func (c *Ctx) Distinct(key string) {
 	if len(c.distinct) < 2000000 {
